@@ -74,11 +74,12 @@ MESSAGES = ('', 'msg', 'a: b', 'line1\nline2', 'x\n\ny', ' lead', 'm\n  File "x"
 MARKERS = ('    ^^^^^', '      ~~~~^^^')
 
 # Source lines that begin like a line of the traceback grammar without being one: every proper prefix of a stack
-# entry's first line cut at a token boundary, the header line, an exception line.  (A source line that, stripped,
-# is itself a *complete* 'File "...", line N, in name' line is not in the menu: see the assumptions.)
+# entry's first line cut at a token boundary, the header line, an exception line - and a source line that, stripped,
+# is itself a *complete* 'File "...", line N, in name' line (only its deeper indentation tells it from a frame).
 LOOKALIKE_SOURCES = (
     'File "%s" could not be opened: %s""" % (name, reason))',
     'File', 'File "', 'File "x.py"', 'File "x.py", line', 'File "x.py", line 3', 'File "x.py", line 3, in',
+    'File "x.py", line 3, in f',
     'Traceback (most recent call last):', 'ValueError: x')
 
 FRAME_MENU = tuple(itertools.product(PATHS, LINES, FUNCS, SOURCES))        # 160 frame variants
@@ -346,8 +347,9 @@ LINKS = ('plain', 'method', 'lambda', 'gen', 'listcomp', 'genexpr', 'closure', '
 # Links through code that is not in a file: compiled from a string under a virtual (absolute, non-existent) path and
 # run in a namespace that publishes the source through the PEP 302 get_source hook, which linecache - hence the
 # interpreter - consults: 'loader' = namespace with __name__ and __loader__ only (generated/template code, legacy
-# importers); 'specloader' = __spec__ and __loader__ both (what zipimport-like importers produce).
-VIRTUAL_LINKS = ('loader', 'specloader')
+# importers); 'specloader' = __spec__ and __loader__ both (what zipimport-like importers produce); 'speconly' =
+# __spec__ with a loader but no __loader__ entry (linecache falls back to __spec__.loader).
+VIRTUAL_LINKS = ('loader', 'specloader', 'speconly')
 DEEP_LINKS = ('plain', 'lambda', 'exec', 'rec3')
 EXC_KINDS = ('msg', 'empty', 'keyerror', 'multiline', 'custom', 'nested', 'assert', 'badstr')
 RAISE = {
@@ -428,7 +430,8 @@ def program_source(chain, exc):
                        'exec(compile(_src%d, _fn%d, "exec"), globals())\n'
                        '%s = _lc%d\n' % (i, i, nxt, i, i, i, i, i, i, i, i, me, i))
         elif kind in VIRTUAL_LINKS:
-            spec = ("'__spec__': _ilm%d.ModuleSpec(_vname%d, _vld%d), " % (i, i, i)) if kind == 'specloader' else ''
+            spec = ("'__spec__': _ilm%d.ModuleSpec(_vname%d, _vld%d), " % (i, i, i)) if kind != 'loader' else ''
+            ldr = ('"__loader__": _vld%d, ' % i) if kind != 'speconly' else ''
             src.append('import sys as _sys%(i)d, importlib.machinery as _ilm%(i)d\n'
                        '\n\n'
                        'class _Loader%(i)d:\n'
@@ -439,10 +442,10 @@ def program_source(chain, exc):
                        '_vsrc%(i)d = "# virtual source\\n\\ndef _v%(i)d():\\n    return _up.%(nxt)s()\\n"\n'
                        '_vpath%(i)d = __file__[:-3] + ".virtual%(i)d.tmpl.py"\n'
                        '_vld%(i)d = _Loader%(i)d()\n'
-                       '_vns%(i)d = {"__name__": _vname%(i)d, "__loader__": _vld%(i)d, %(spec)s'
+                       '_vns%(i)d = {"__name__": _vname%(i)d, %(ldr)s%(spec)s'
                        '"_up": _sys%(i)d.modules[__name__]}\n'
                        'exec(compile(_vsrc%(i)d, _vpath%(i)d, "exec"), _vns%(i)d)\n'
-                       '%(me)s = _vns%(i)d["_v%(i)d"]\n' % {'i': i, 'nxt': nxt, 'me': me, 'spec': spec.replace("'", '"')})
+                       '%(me)s = _vns%(i)d["_v%(i)d"]\n' % {'i': i, 'nxt': nxt, 'me': me, 'spec': spec.replace("'", '"'), 'ldr': ldr})
         elif kind.startswith('rec'):
             k = int(kind[3:])
             src.append('def %s(n=%d):\n    return %s(n - 1) if n else %s()\n' % (me, k, me, nxt))
@@ -821,12 +824,7 @@ def run(ctx):
         'a recovered line number may be an int or its decimal string; an absent source line may be "" or None',
         'source text is compared after stripping surrounding white space (the traceback module strips it)',
         'messages whose last line looks like "Exception ... ignored" are outside the text menu',
-        'source lines that, stripped, are themselves a complete stack-entry line (File "p", line N, in name) are '
-        'outside the text menu: from_string reads them as a further frame (only the indentation tells them apart); '
-        'reported with fixes/C16-6-source-line-reads-like-frame.patch',
-        'virtual code is published through __loader__ (with or without __spec__); a namespace with __spec__ but no '
-        '__loader__ is not explored: tbutils ignores __spec__.loader there although linecache uses it; reported with '
-        'fixes/C16-5-spec-loader-fallback.patch',
+        'virtual code is published through __loader__, through __spec__.loader, or both',
     ]
 
 
